@@ -98,3 +98,112 @@ ROUND2_TWINS.append({"name": 'init-set-map-lower', "edits": [(S, '        self._
 ROUND2_TWINS.append({"name": 'clear-rebinding', "edits": [(S, '        self._set.clear()\n        self._headers.clear()\n', '        self._set = set()\n        self._headers = []\n')]})
 TWINS = TWINS + ROUND2_TWINS
 MUTANTS = MUTANTS + ROUND2_MUTANTS
+
+# ---------------------------------------------------------------------------------------------------------------------
+# round 3 (R8.7): read-through of the combined multi dict.  Class of defects: a read stops consulting the wrapped
+# dicts while some are unvisited and answers what it answers after a complete scan (default / KeyError / False / the
+# accumulated result), in different spellings; and neutral restructurings of the same scans.
+
+_GET_TAIL = "                    except (ValueError, TypeError):\n                        continue\n                return d[key]\n        return default"
+_GET_LOOP = (
+    "        for d in self.dicts:\n            if key in d:\n                if type is not None:\n                    try:\n"
+    "                        return type(d[key])\n                    except (ValueError, TypeError):\n                        continue\n"
+    "                return d[key]\n        return default"
+)
+_GETITEM = "        for d in self.dicts:\n            if key in d:\n                return d[key]\n        raise exceptions.BadRequestKeyError(key)"
+_CONTAINS = "        for d in self.dicts:\n            if key in d:\n                return True\n        return False"
+
+ROUND3_TWINS = [
+    {"name": "combined-get-lookup-once", "edits": [(S, _GET_LOOP,
+        "        for d in self.dicts:\n            if key in d:\n                rv = d[key]\n\n                if type is None:\n                    return rv\n\n"
+        "                try:\n                    return type(rv)\n                except (ValueError, TypeError):\n                    continue\n        return default")]},
+    {"name": "combined-contains-found-flag-break", "edits": [(S, _CONTAINS,
+        "        found = False\n        for d in self.dicts:\n            if key in d:\n                found = True\n                break\n        return found")]},
+    {"name": "combined-getitem-through-private-helper", "edits": [(S, _GETITEM,
+        "        holder = self._first_with(key)\n        if holder is None:\n            raise exceptions.BadRequestKeyError(key)\n        return holder[key]\n\n"
+        "    def _first_with(self, key: K) -> MultiDict[K, V] | None:\n        for d in self.dicts:\n            if key in d:\n                return d\n        return None")]},
+    {"name": "combined-getitem-via-get-sentinel", "edits": [(S, _GETITEM,
+        "        rv = self.get(key, _missing)\n        if rv is _missing:\n            raise exceptions.BadRequestKeyError(key)\n        return rv  # type: ignore[return-value]")]},
+    {"name": "combined-get-result-local-break-else", "edits": [(S, _GET_LOOP,
+        "        rv = default\n        for wrapped in self.dicts:\n            if key not in wrapped:\n                continue\n            if type is None:\n                rv = wrapped[key]\n                break\n"
+        "            try:\n                rv = type(wrapped[key])\n            except (ValueError, TypeError):\n                pass\n            else:\n                break\n        return rv")]},
+    {"name": "combined-getlist-alias-enumerate-getitem-guarded", "edits": [
+        (S, "        rv = []\n        for d in self.dicts:\n            rv.extend(d.getlist(key, type))  # type: ignore[arg-type]\n        return rv",
+            "        wrapped = self.dicts\n        rv = []\n        for _i, d in enumerate(wrapped):\n            rv += d.getlist(key, type)  # type: ignore[arg-type]\n        return rv"),
+        (S, _GETITEM, "        if key not in self:\n            raise exceptions.BadRequestKeyError(key)\n        for d in self.dicts:\n            if key in d:\n                return d[key]\n        raise exceptions.BadRequestKeyError(key)"),
+    ]},
+    {"name": "combined-scans-copy-slice-module-helper", "edits": [
+        (S, _CONTAINS, "        for d in self.dicts[:]:\n            if key in d:\n                return True\n        return False"),
+        (S, _GETITEM, "        holder = _first_holding(list(self.dicts), key)\n        if holder is not None:\n            return holder[key]  # type: ignore[no-any-return]\n        raise exceptions.BadRequestKeyError(key)"),
+        (S, "class CombinedMultiDict(ImmutableMultiDictMixin[K, V], MultiDict[K, V]):  # type: ignore[misc]\n", "def _first_holding(wrapped: t.Any, key: t.Any) -> t.Any:\n    for candidate in wrapped:\n        if key in candidate:\n            return candidate\n    return None\n\n\nclass CombinedMultiDict(ImmutableMultiDictMixin[K, V], MultiDict[K, V]):  # type: ignore[misc]\n"),
+    ]},
+    {"name": "combined-getitem-try-each-getlist-comprehension", "edits": [
+        (S, _GETITEM, "        for d in self.dicts:\n            try:\n                return d[key]\n            except KeyError:\n                continue\n        raise exceptions.BadRequestKeyError(key)"),
+        (S, "        rv = []\n        for d in self.dicts:\n            rv.extend(d.getlist(key, type))  # type: ignore[arg-type]\n        return rv", "        return [v for d in self.dicts for v in d.getlist(key, type)]  # type: ignore[arg-type]"),
+    ]},
+    {"name": "combined-contains-any-keys-direct", "edits": [
+        (S, _CONTAINS, "        return any(key in d for d in self.dicts)"),
+        (S, "    def keys(self) -> cabc.Iterable[K]:  # type: ignore[override]\n        return self._keys_impl()", "    def keys(self) -> cabc.Iterable[K]:  # type: ignore[override]\n        return {k for d in self.dicts for k in d}"),
+    ]},
+]
+
+ROUND3_MUTANTS = [
+    {"name": "combined-get-failed-conversion-breaks", "expect": "R8.7", "edits": [(S, _GET_TAIL, _GET_TAIL.replace("continue", "break"))]},
+    {"name": "combined-get-failed-conversion-returns-default", "expect": "R8.7", "edits": [(S, _GET_TAIL, _GET_TAIL.replace("continue", "return default"))]},
+    {"name": "combined-get-falls-back-to-single-dict-get", "expect": "R8.7", "edits": [(S, _GET_LOOP, "        return super().get(key, default, type)  # type: ignore[arg-type]")]},
+    {"name": "combined-getitem-raises-at-first-miss", "expect": "R8.7", "edits": [(S, _GETITEM,
+        "        for d in self.dicts:\n            if key in d:\n                return d[key]\n            raise exceptions.BadRequestKeyError(key)\n        raise exceptions.BadRequestKeyError(key)")]},
+    {"name": "combined-contains-answers-from-first-dict", "expect": "R8.7", "edits": [(S, _CONTAINS, "        for d in self.dicts:\n            return key in d\n        return False")]},
+    {"name": "combined-getlist-stops-at-first-hit", "expect": "R8.7", "edits": [(S,
+        "            rv.extend(d.getlist(key, type))  # type: ignore[arg-type]\n        return rv",
+        "            rv.extend(d.getlist(key, type))  # type: ignore[arg-type]\n            if rv:\n                break\n        return rv")]},
+    {"name": "combined-lists-first-dict-only", "expect": "R8.7", "edits": [(S,
+        "                rv.setdefault(key, []).extend(values)\n        return rv.items()",
+        "                rv.setdefault(key, []).extend(values)\n            break\n        return rv.items()")]},
+    {"name": "combined-items-generator-returns-after-first", "expect": "R8.7", "edits": [(S,
+        "                elif key not in found:\n                    found.add(key)\n                    yield key, value\n",
+        "                elif key not in found:\n                    found.add(key)\n                    yield key, value\n            return\n")]},
+    {"name": "combined-contains-scans-a-slice", "expect": "R8.7", "edits": [(S, _CONTAINS, _CONTAINS.replace("in self.dicts:", "in self.dicts[:1]:"))]},
+    {"name": "combined-getlist-scans-reversed", "expect": "R8.7", "edits": [(S, "        rv = []\n        for d in self.dicts:\n            rv.extend(", "        rv = []\n        for d in reversed(self.dicts):\n            rv.extend(")]},
+    {"name": "combined-values-override-lost", "expect": "R8.7", "edits": [(S,
+        "    def values(self) -> cabc.Iterable[V]:  # type: ignore[override]\n        for _, value in self.items():\n            yield value\n\n    def lists(self) -> cabc.Iterable[tuple[K, list[V]]]:\n        rv: dict[K, list[V]] = {}",
+        "    def lists(self) -> cabc.Iterable[tuple[K, list[V]]]:\n        rv: dict[K, list[V]] = {}")]},
+    {"name": "shape:lookup-once-failed-conversion-breaks", "expect": "R8.7", "edits": None},
+    {"name": "shape:found-flag-set-from-first-dict", "expect": "R8.7", "edits": None},
+    {"name": "shape:helper-gives-up-at-first-miss", "expect": "R8.7", "edits": None},
+    {"name": "shape:result-local-failed-conversion-breaks", "expect": "R8.7", "edits": None},
+    {"name": "shape:grown-result-starts-as-shared-list", "expect": "R8.4", "edits": None},
+    {"name": "shape:module-helper-gives-up-at-first-miss", "expect": "R8.7", "edits": None},
+    {"name": "shape:try-each-stops-at-first-keyerror", "expect": "R8.7", "edits": None},
+]
+
+
+def _derive3(twin_name, repl):
+    tw = next(t for t in ROUND3_TWINS if t["name"] == twin_name)
+    out = []
+    hit = 0
+    for rel, old, new in tw["edits"]:
+        for a, b in repl:
+            if a in new:
+                assert new.count(a) == 1, (twin_name, a)
+                new = new.replace(a, b)
+                hit += 1
+        out.append((rel, old, new))
+    assert hit == len(repl), (twin_name, hit)
+    return out
+
+
+_SHAPES3 = {
+    "shape:lookup-once-failed-conversion-breaks": ("combined-get-lookup-once", [("                    continue\n", "                    break\n")]),
+    "shape:found-flag-set-from-first-dict": ("combined-contains-found-flag-break", [("            if key in d:\n                found = True\n                break\n", "            found = key in d\n            break\n")]),
+    "shape:helper-gives-up-at-first-miss": ("combined-getitem-through-private-helper", [("            if key in d:\n                return d\n        return None", "            if key in d:\n                return d\n            return None\n        return None")]),
+    "shape:module-helper-gives-up-at-first-miss": ("combined-scans-copy-slice-module-helper", [("        if key in candidate:\n            return candidate\n    return None", "        if key in candidate:\n            return candidate\n        break\n    return None")]),
+    "shape:try-each-stops-at-first-keyerror": ("combined-getitem-try-each-getlist-comprehension", [("            except KeyError:\n                continue\n", "            except KeyError:\n                break\n")]),
+    "shape:grown-result-starts-as-shared-list": ("combined-getlist-alias-enumerate-getitem-guarded", [("        wrapped = self.dicts\n        rv = []\n", "        wrapped = self.dicts\n        rv = wrapped\n")]),
+    "shape:result-local-failed-conversion-breaks": ("combined-get-result-local-break-else", [("                pass\n            else:\n                break\n", "                break\n            else:\n                break\n")]),
+}
+for _m in ROUND3_MUTANTS:
+    if _m["edits"] is None:
+        _m["edits"] = _derive3(*_SHAPES3[_m["name"]])
+TWINS = TWINS + ROUND3_TWINS
+MUTANTS = MUTANTS + ROUND3_MUTANTS
